@@ -132,5 +132,9 @@ DoneOkOnlyBy == [][(done = "pending" /\ done' = "ok") => (phase = "joined" \/ st
 DoneErrOnlyBy == [][(done = "pending" /\ done' = "err") => ((phase = "check" /\ ~AnyCan) \/ (phase = "joined" /\ HasMain))]_vars
 \* liveness: with finite budgets everywhere and every attempt failing, start() completes
 AllFinite == \A t \in Tr : MaxRetries[t] # -1
-EventuallyDoneIfAlwaysFailing == (AllFinite /\ [][~Join]_vars /\ WF_vars(\E f \in BOOLEAN : Fail(f))) => <>(done # "pending")
+\* liveness (checked with MC_Component_live.cfg, finite budgets, no state constraint): if no attempt ever joins and every
+\* attempt eventually fails, start() completes - the retry loop cannot spin forever on finite budgets
+NextNoJoin == Start \/ Check \/ Fire \/ (\E f \in BOOLEAN : Fail(f)) \/ Stop
+FailingSpec == Init /\ [][NextNoJoin]_vars /\ WF_vars(Start) /\ WF_vars(Check) /\ WF_vars(Fire) /\ WF_vars(\E f \in BOOLEAN : Fail(f))
+EventuallyDone == <>(done # "pending")
 =============================================================================
